@@ -4,7 +4,9 @@ correspondence: Hedger.compute_hedge (both branches; linear / MLP / prev_hedge-c
 BlackScholes / WhalleyWilmott models) vs Lean `computeHedge` (Float carrier).
 predicate (real code): the perturbation experiment — re-inject buffers changed only at columns
 > t (new running maximum, barrier crossing, variance jump) and compare compute_hedge[..., :t+1]
-bitwise; last column == the one before it.
+bitwise; last column == the one before it.  Price series with NON-POSITIVE entries (injected zeros / negative values, real VasicekRate
+simulations crossing zero) for every feature, the closed-form models and shared feature objects: nan / -inf compared as equal (nan == nan),
+non-anticipativity demanded of whatever is produced.
 """
 from fractions import Fraction as F
 from common import *  # noqa
@@ -210,6 +212,301 @@ def features_x_underliers(ctx, torch, g, reqs, metas):
                             metas.append((case | {"kind": "x", "path": p}, tol, [[base[p][hh][tt] for hh in range(H)] for tt in range(T)]))
 
 
+# ---- price series with NON-POSITIVE entries ----------------------------------------------------------------------------------------
+# Interest rates (VasicekRate paths cross zero), prices that have hit zero and registered paths with a bad tick below zero are legal
+# simulated data.  The log features are nan / -inf there on the unchanged code (and so may be the hedge), the other features are
+# ordinary numbers; whatever is produced must still be a function of the past: values are compared bitwise with nan == nan.
+# Every case of this class has a non-positive price at a step <= t, and the perturbation of the future always moves the smallest
+# positive price of the whole tensor (besides new maxima / minima / zeros / negative values / variance jumps after t).
+NP_VALUES = [F(0), F(-1, 4), F(0), F(-1), F(-1, 32), F(-3)]
+
+
+def same_nan(a, b):
+    """nested float lists: bitwise equal, nan == nan"""
+    if isinstance(a, list) != isinstance(b, list):
+        return False
+    if isinstance(a, list):
+        return len(a) == len(b) and all(same_nan(x, y) for x, y in zip(a, b))
+    return a == b or (a != a and b != b)
+
+
+def make_nonpositive(g, mk, values=NP_VALUES):
+    """put non-positive entries into the price series; returns the first column that has one (always <= T - 2)"""
+    N, T = mk["N"], mk["T"]
+    p0, j0 = g.randint(0, N - 1), g.randint(0, T - 2)
+    mk["spot"][p0][j0] = g.choice(values)
+    for _ in range(g.choice([0, 0, 1, 2, 4])):
+        mk["spot"][g.randint(0, N - 1)][g.randint(0, T - 1)] = g.choice(values)
+    if g.chance(0.15):      # a whole path at or below zero
+        p = g.randint(0, N - 1)
+        mk["spot"][p] = [g.choice(values) for _ in range(T)]
+    return min(j for r in mk["spot"] for j, x in enumerate(r) if x <= 0)
+
+
+def simulate_vasicek(torch, g, mk):
+    """a REAL VasicekRate simulation in a low-rate regime whose paths cross zero before the last step (None if none of the attempts does)"""
+    import pfhedge.instruments as I
+    N, T, dt = mk["N"], mk["T"], float(mk["dt"])
+    state = torch.random.get_rng_state()
+    try:
+        for _ in range(30):
+            theta, sigma = g.choice([F(1, 512), F(1, 64), F(0), F(-1, 128)]), g.choice([F(1, 4), F(1, 16), F(1)])
+            torch.manual_seed(g.randint(0, 2 ** 31 - 1))
+            u = I.VasicekRate(kappa=float(g.choice([F(1), F(1, 4), F(4)])), theta=float(theta), sigma=float(sigma), dt=dt, dtype=torch.float64)
+            u.simulate(n_paths=N, time_horizon=(T - 1) * dt)
+            s = u.spot
+            if tuple(s.shape) == (N, T) and bool((s[:, : T - 1] <= 0).any()) and bool(s.isfinite().all()):
+                return [[F(x) for x in r] for r in s.tolist()]
+    finally:
+        torch.random.set_rng_state(state)
+    return None
+
+
+def perturb_np(g, mk, t, negatives=True):
+    """copy of the market changed only at columns > t: the general perturbation, plus zeros / negative values / tiny positive values;
+    the smallest positive price of the whole tensor always moves"""
+    m2 = perturb(g, mk, t)
+    N, T = mk["N"], mk["T"]
+    pos = [x for r in mk["spot"] for x in r if x > 0]
+    low = min(pos) if pos else F(1)
+    for p in range(N):
+        for j in range(t + 1, T):
+            r = g.r.random()
+            if r < 0.15:
+                m2["spot"][p][j] = F(0)
+            elif r < 0.3:
+                m2["spot"][p][j] = -g.dy(F(1, 8), 2, 3) if negatives else F(0)
+            elif r < 0.45:
+                m2["spot"][p][j] = low / g.choice([2, 16, 1024])
+            elif r < 0.55:
+                m2["spot"][p][j] = abs(mk["spot"][p][j]) / 1024
+    m2["spot"][g.randint(0, N - 1)][T - 1] = low / g.choice([4, 1024])
+    return m2
+
+
+def nonpositive_prices(ctx, torch, g, reqs, metas):
+    from pfhedge.nn import Hedger, BlackScholes, WhalleyWilmott
+    from pfhedge.features import ModuleOutput
+    pool = [nm for nm in BASE_FEATURES if nm != "empty"]
+
+    def lookahead(case, names, label, base, pert, t, m2, key):
+        N, H = len(base), len(base[0])
+        for p in range(N):
+            for hh in range(H):
+                a, b = base[p][hh][: t + 1], pert[p][hh][: t + 1]
+                if not same_nan(a, b):
+                    ctx.fail(f"hedge ratios for steps 0..t change when only prices/variances after step t are changed (look-ahead) on a price series "
+                             f"with non-positive entries: features {names} on {label}",
+                             case | {"perturbed_spot": enc_rat(m2["spot"]), "perturbed_vol": enc_rat(m2["vol"]), "perturbed_var": enc_rat(m2["var"])},
+                             key=key, detail={"before": a, "after": b, "path": p})
+                    return
+
+    def last_column(case, base, key):
+        T = len(base[0][0])
+        if any(not same_nan(r[T - 1], r[T - 2]) for pth in base for r in pth):
+            ctx.fail("the position at the final time index differs from the one held over the last step (price series with non-positive entries)",
+                     case, key=key, detail={"hedge": base})
+
+    # ---------- (1) every built-in feature, all underlier / derivative types, linear models, both evaluation orders;
+    #                injected dyadic series and real VasicekRate simulations
+    for rep in range(3 if ctx.tier == "quick" else 12):
+        for main in pool:
+            for origin in ("injected", "vasicek_simulation"):
+                for attempt in range(8):
+                    ukind = "VasicekRate" if origin == "vasicek_simulation" else g.choice(X_UNDERLIERS)
+                    mk = gen_market_x(g, ukind)
+                    if rep == 0:     # the first round: the four options (every moneyness feature is defined for them)
+                        mk["option"] = g.choice(OPTION_TYPES)
+                    T, N = mk["T"], mk["N"]
+                    j0 = None
+                    if origin == "vasicek_simulation":
+                        sim = simulate_vasicek(torch, g, mk)
+                        if sim is not None:
+                            mk["spot"] = sim
+                            mk["strike"] = g.choice([F(1, 512), F(1, 64), F(1, 8), F(1)])
+                            j0 = min(j for r in sim for j, x in enumerate(r) if x <= 0)
+                    else:
+                        j0 = make_nonpositive(g, mk)
+                    if j0 is None:
+                        continue
+                    d, u = build_x(torch, mk)
+                    names = [main] + ([g.choice(pool)] if g.chance(0.35) else [])
+                    exists = all(quantity_exists(nm, d, u) for nm in names)
+                    if exists or rep > 0 or origin == "vasicek_simulation":
+                        break
+                if j0 is None:
+                    ctx.stats["nonpositive:vasicek-simulation-did-not-cross-zero"] += 1
+                    continue
+                thr = g.choice([x for p in mk["spot"] for x in p])
+                wrapped = g.chance(0.25)
+                t = g.randint(j0, T - 2)
+                m2 = perturb_np(g, mk, t)
+                for stepwise in (False, True):
+                    H = g.choice([1, 1, 2])
+                    sub_ms = None
+                    if wrapped:
+                        sub_ms = dict(kind="linear", w=[[g.choice(NZ_W) for _ in names] for _ in range(2)], b=[g.choice([F(0), F(1, 2)]) for _ in range(2)],
+                                      relu=g.chance(0.3))
+                        feats = [feature_obj(torch, "module_output", mk, thr, (model_obj(torch, sub_ms), names))]
+                        fj = [feature_json("module_output", thr, (model_json(sub_ms), names))]
+                        width = 2
+                    else:
+                        feats = [feature_obj(torch, nm, mk, thr) for nm in names]
+                        fj = [feature_json(nm, thr) for nm in names]
+                        width = len(names)
+                    if stepwise:
+                        feats.append("prev_hedge")
+                        fj.append(["prev_hedge"])
+                        width += H
+                    ms = dict(kind="linear", w=[[g.choice(NZ_W) for _ in range(width)] for _ in range(H)], b=[g.choice([F(0), F(1, 2), F(-1, 4)]) for _ in range(H)],
+                              relu=g.chance(0.25))
+                    hedger = Hedger(model_obj(torch, ms), feats)
+                    hedge = [u] + extra_hedges(torch, g, mk, H - 1)
+                    case = {"nonpositive_prices": origin, "features": names, "module_output": wrapped, "stepwise": stepwise, "H": H, "thr": rat_str(thr),
+                            "model": model_json(ms), "option": mk["option"], "primary": ukind, "T": T, "N": N, "spot": enc_rat(mk["spot"]),
+                            "vol": enc_rat(mk["vol"]), "var": enc_rat(mk["var"]), "strike": rat_str(mk["strike"]), "dt": rat_str(mk["dt"]), "call": mk["call"],
+                            "t": t}
+                    with torch.no_grad():
+                        inject_x(torch, u, mk)
+                        st, out, mut = call_impl(hedger.compute_hedge, d, hedge, watch=[("derivative", d)])
+                        inject_x(torch, u, m2)
+                        st2, out2, _ = call_impl(hedger.compute_hedge, d, hedge)
+                        inject_x(torch, u, mk)
+                    if mut:
+                        ctx.mutated("compute_hedge", mut, case)
+                    ctx.stats[f"nonpositive:{origin}"] += 1
+                    if st != "ok" and st2 != "ok" and not exists:
+                        ctx.case(case, False, tag="nonpositive_prices:undefined")
+                        continue
+                    ctx.case(case, True, tag="nonpositive_prices")
+                    ctx.traces += 1
+                    if st != "ok" or st2 != "ok":
+                        ctx.fail("compute_hedge raised on a price series with non-positive entries for a feature whose quantity exists, or raised on only one "
+                                 "of two markets that differ after step t only", case, key="compute_hedge:nonpositive:error",
+                                 detail={"base": str(out)[:120] if st != "ok" else "ok", "perturbed": str(out2)[:120] if st2 != "ok" else "ok"})
+                        continue
+                    if tuple(out.shape) != (N, H, T) or tuple(out2.shape) != (N, H, T):
+                        ctx.fail("compute_hedge has the wrong shape", case, key="compute_hedge:nonpositive:shape", detail=list(out.shape))
+                        continue
+                    base, pert = out.tolist(), out2.tolist()
+                    last_column(case, base, "compute_hedge:nonpositive:last-column")
+                    lookahead(case, names, f"{ukind} / {mk['option']} ({origin})", base, pert, t, m2, "compute_hedge:nonpositive:lookahead")
+                    if exists and origin == "injected":
+                        has_log = any(nm in LOG_FEATURES for nm in names)
+                        for p in range(N):
+                            # the model's Float carrier follows IEEE arithmetic, but its relu and its running maximum are written with comparisons
+                            # (torch propagates nan through both): scenarios whose nan would pass through one of them are not sent
+                            if has_log and (ms["relu"] or (wrapped and sub_ms["relu"])):
+                                continue
+                            if "max_log_moneyness" in names and any(x < 0 for x in mk["spot"][p]):
+                                continue
+                            reqs.append({"op": "hedge", "market": market_json(mk, p), "features": fj, "model": model_json(ms), "n": T, "h": H})
+                            metas.append((case | {"kind": "x", "path": p}, has_log or "time_to_maturity" in names,
+                                          [[base[p][hh][tt] for hh in range(H)] for tt in range(T)]))
+    # ---------- (2) the closed-form models BlackScholes (all steps at once) and WhalleyWilmott (step by step) on a European option
+    for it in range(30 if ctx.tier == "quick" else 200):
+        mk = gen_market(g, primary=g.choice(["BrownianStock", "HestonStock", "MertonJumpStock"]))
+        mk["option"] = "EuropeanOption"
+        T, N = mk["T"], mk["N"]
+        mk["vol"] = [[v if v > 0 else F(1, 4) for v in r] for r in mk["vol"]]
+        mk["var"] = [[v * v for v in r] for r in mk["vol"]]
+        # torch's Normal.cdf REJECTS nan (ValueError): the closed-form models produce a hedge for prices that hit zero (log = -inf), and
+        # raise as soon as one price of the tensor is negative (no hedge: nothing to compare).  Mostly zeros, negative values now and then.
+        negatives = g.chance(0.2)
+        j0 = make_nonpositive(g, mk, values=NP_VALUES if negatives else [F(0)])
+        d, u = build_derivative(torch, mk)
+        kind = g.choice(["bs", "ww"])
+        if kind == "bs":
+            model = BlackScholes(d)
+            names = ["log_moneyness", "time_to_maturity", "volatility"]
+            msj = {"kind": "bs_european", "call": mk["call"], "k": float_bits(float(mk["strike"]))}
+        else:
+            a = g.choice([0.25, 1.0, 3.0])
+            model = WhalleyWilmott(d, a=a)
+            names = ["log_moneyness", "time_to_maturity", "volatility", "prev_hedge"]
+            msj = {"kind": "ww_european", "call": mk["call"], "k": float_bits(float(mk["strike"])),
+                   "cost": float_bits(float(mk["cost"])), "a": float_bits(a)}
+        hedger = Hedger(model, list(model.inputs()))
+        t = g.randint(j0, T - 2)
+        m2 = perturb_np(g, mk, t, negatives=negatives)
+        case = {"nonpositive_prices": "injected", "kind": kind, "H": 1, "features": names, "model": msj, "option": mk["option"], "primary": mk["primary"],
+                "T": T, "N": N, "spot": enc_rat(mk["spot"]), "vol": enc_rat(mk["vol"]), "strike": rat_str(mk["strike"]),
+                "dt": rat_str(mk["dt"]), "call": mk["call"], "cost": rat_str(mk["cost"]), "t": t}
+        with torch.no_grad():
+            inject(torch, u, mk)
+            st, out, mut = call_impl(hedger.compute_hedge, d, [u], watch=[("derivative", d)])
+            inject(torch, u, m2)
+            st2, out2, _ = call_impl(hedger.compute_hedge, d, [u])
+            inject(torch, u, mk)
+        if mut:
+            ctx.mutated("compute_hedge", mut, case)
+        if negatives and (st != "ok" or st2 != "ok"):
+            ctx.case(case, False, tag=f"nonpositive_prices:{kind}:raises-on-nan")
+            continue
+        ctx.case(case, True, tag=f"nonpositive_prices:{kind}")
+        ctx.traces += 1
+        if (st != "ok" or st2 != "ok") and not negatives:
+            ctx.fail("compute_hedge of a closed-form model raised on a price series with non-positive entries (or on only one of two markets that "
+                     "differ after step t only)", case, key="compute_hedge:nonpositive:error",
+                     detail={"base": str(out)[:120] if st != "ok" else "ok", "perturbed": str(out2)[:120] if st2 != "ok" else "ok"})
+            continue
+        if tuple(out.shape) != (N, 1, T) or tuple(out2.shape) != (N, 1, T):
+            ctx.fail("compute_hedge has the wrong shape", case, key="compute_hedge:nonpositive:shape", detail=list(out.shape))
+            continue
+        base, pert = out.tolist(), out2.tolist()
+        last_column(case, base, "compute_hedge:nonpositive:last-column")
+        lookahead(case, names, f"{mk['primary']} / EuropeanOption, model {kind}", base, pert, t, m2, "compute_hedge:nonpositive:lookahead")
+        fj = [feature_json(nm) for nm in names]
+        for p in range(N):
+            reqs.append({"op": "hedge", "market": market_json(mk, p), "features": fj, "model": msj, "n": T, "h": 1})
+            metas.append((case | {"path": p}, True, [[base[p][0][tt]] for tt in range(T)]))
+    # ---------- (3) a ModuleOutput(log_moneyness, prev_hedge) feature OBJECT shared by two hedgers evaluated alternately
+    for it in range(12 if ctx.tier == "quick" else 100):
+        mk = gen_market(g, primary="BrownianStock")
+        mk["option"] = g.choice(OPTION_TYPES)
+        T, N = mk["T"], mk["N"]
+        j0 = make_nonpositive(g, mk)
+        d, u = build_derivative(torch, mk)
+        inner_name = g.choice(["log_moneyness", "max_log_moneyness", "underlier_log_spot", "log_spot", "moneyness"])
+        sub_ms = gen_linear(g, 2, 1)
+        top1, top2 = gen_linear(g, 2, 1), gen_linear(g, 2, 1)
+
+        def mk_feature():
+            return ModuleOutput(model_obj(torch, sub_ms), [feature_obj(torch, inner_name, mk), "prev_hedge"])
+        shared = mk_feature()
+        hA = Hedger(model_obj(torch, top1), [shared, "time_to_maturity"])
+        hB = Hedger(model_obj(torch, top2), [shared, "time_to_maturity"])
+        hB_own = Hedger(model_obj(torch, top2), [mk_feature(), "time_to_maturity"])
+        t = g.randint(j0, T - 2)
+        m2 = perturb_np(g, mk, t)
+        case = {"nonpositive_prices": "injected", "shared_module_output": inner_name, "option": mk["option"], "T": T, "N": N, "spot": enc_rat(mk["spot"]),
+                "strike": rat_str(mk["strike"]), "dt": rat_str(mk["dt"]), "sub": model_json(sub_ms), "top": [model_json(top1), model_json(top2)], "t": t}
+        ctx.case(case, True, tag="nonpositive_prices:shared_feature_objects")
+        ctx.traces += 1
+        with torch.no_grad():
+            inject(torch, u, mk)
+            sA, oA, _ = call_impl(hA.compute_hedge, d)
+            sB, oB, _ = call_impl(hB.compute_hedge, d)
+            sO, oO, _ = call_impl(hB_own.compute_hedge, d)
+            inject(torch, u, m2)
+            sA2, oA2, _ = call_impl(hA.compute_hedge, d)
+            sB2, oB2, _ = call_impl(hB.compute_hedge, d)
+            inject(torch, u, mk)
+        if not (sA == sB == sO == sA2 == sB2 == "ok"):
+            ctx.fail("compute_hedge raised for hedgers sharing a feature object on a price series with non-positive entries", case,
+                     key="compute_hedge:nonpositive:error", detail=[str(x)[:80] for x in (oA, oB, oO, oA2, oB2) if not hasattr(x, "shape")])
+            continue
+        if not same_nan(oB.tolist(), oO.tolist()):
+            ctx.fail("a hedger sharing a ModuleOutput(prev_hedge) feature object with another hedger differs from the same hedger with its own "
+                     "feature objects (price series with non-positive entries)", case, key="compute_hedge:nonpositive:shared-feature:own-state",
+                     detail={"shared": oB.tolist(), "own": oO.tolist()})
+            continue
+        last_column(case, oB.tolist(), "compute_hedge:nonpositive:last-column")
+        for o, o2 in ((oA, oA2), (oB, oB2)):
+            lookahead(case, [inner_name, "prev_hedge"], f"BrownianStock / {mk['option']}, shared ModuleOutput", o.tolist(), o2.tolist(), t, m2,
+                      "compute_hedge:nonpositive:lookahead")
+
+
 def check(ctx):
     torch, pfhedge = import_impl()
     from pfhedge.nn import Hedger, Naked, BlackScholes, WhalleyWilmott
@@ -388,6 +685,9 @@ def check(ctx):
                      case | {"t": t}, key="compute_hedge:lookahead", detail={"before": oB[..., : t + 1].tolist(), "after": oB2[..., : t + 1].tolist()})
     # ---------------- every built-in feature x every underlier type (incl. rates and user-defined primaries) x every derivative type
     features_x_underliers(ctx, torch, g, reqs, metas)
+    # ---------------- price series with non-positive entries (rates crossing zero, prices that hit zero): every feature, the closed-form
+    # models, shared feature objects
+    nonpositive_prices(ctx, torch, g, reqs, metas)
     try:
         outs = ctx.driver(reqs)
     except DriverBroken as e:
@@ -410,4 +710,6 @@ def check(ctx):
         rule="real Hedger on injected dyadic markets (Brownian/Heston/Merton/LocalVol x 4 option types), 1-3 random built-in features "
              "(+prev_hedge, ModuleOutput), models linear/MLP/prev-consuming/Naked/BlackScholes/WhalleyWilmott; perturbation of all buffers at "
              "columns > t making later prices new extremes / crossing barriers / changing variance; non-trivial = perturbation changes a whole-path "
-             "statistic (max/min); distinct = sha1 of canonical case")
+             "statistic (max/min); price series with non-positive entries (zeros, negative values, simulated VasicekRate paths crossing zero) for every "
+             "feature x underlier x derivative, BlackScholes / WhalleyWilmott and shared ModuleOutput objects, the perturbation always moving the "
+             "smallest positive price, nan-aware bitwise comparison; distinct = sha1 of canonical case")
